@@ -43,9 +43,9 @@ CLAIMED = {
     technique='Coq proof (order + sort + groupby) + correspondence',
     design='6 C09'),
  'C10': dict(
-    text='Theorems: the result set is determined by the set of glob forms of the unfolded searches on any data set, results of concatenated search lists are unions, comma alternatives unfold to the cartesian product, no duplicates. The five rewrite rules are checked as result-set equalities on the implementation (pairs of searches over generated universes) and by correspondence.',
-    note=TB + 'PARTIAL: alias / "**" / filter / literal rules are oracle-checked, not theorems. FindInList part here; other finders through C11.',
-    technique='Coq proof (set-level lemmas over star_search) + rewrite-pair oracle + correspondence',
+    text='Theorems: the result set is determined by the set of glob forms of the unfolded searches on any data set, results of concatenated search lists are unions, comma alternatives unfold to the cartesian product, no duplicates; and, from the C07 denotation, for the list-backed finder and every configuration passing unfold_conf_okb: a search returns exactly the entries glob-matched by a typed search it denotes, and the five rewrite rules (comma list = union of alternatives, alias = union of members, "**" = union over n levels restricted to leaf types, filter k=v = the results whose field k is v, literal = the subset with that value) hold as set equalities under explicit decidable guards, each instantiated on the live configuration on every run. The five rules are also checked as result-set equalities on the implementation (pairs of searches over generated universes) on FindInList (both constructor modes), FindInPaths and FindInAll over real trees, and by correspondence.',
+    note=TB + 'Guards of the rule theorems: plain search strings, url-safe filter values, no ">" (sorted search), narrowing keeps the string of a typed non-search Sid (shortcut_okb), the list finder does not re-type entries (lit_ok / filt_okb). On the tree finders the rules are oracle-checked and follow for star searches from the C11 equality theorem.',
+    technique='Coq proof (rules derived from the denotation refinement of C07 + glob relation of C08) + rewrite-pair oracle on three finders + correspondence',
     design='6 C10'),
  'C12': dict(
     text='Theorems (Finder level): find_one is the head of find, exists is non-emptiness (guard: no empty-string entry; the edge is proved as a _refuted example), as_sid=False strings are the strings of the as_sid=True results. Differential run + oracle on FindInList universes; Sid.exists / children / siblings over the file-system model are tied by the data-layer correspondence.',
